@@ -52,6 +52,12 @@ type c04Case struct {
 	Scheme     int        `json:"scheme,omitempty"`   // 0 default 1 path 2 history
 	Tiebreak   string     `json:"tiebreak,omitempty"` // "" = the scheme's default criteria
 	Partitions int        `json:"partitions,omitempty"`
+	// configuration stream (c04opts.go): when Cfg is set, scheme / criteria / sort / tac are NOT the fields above but
+	// what the spec (CriteriaSpec.configured) reads from the option sequence Opts
+	Cfg    bool     `json:"cfg,omitempty"`
+	Walker bool     `json:"walker,omitempty"` // proc: stdin is a terminal, the lines come from $FZF_DEFAULT_COMMAND
+	Opts   []c04Opt `json:"opts,omitempty"`
+	crits  []int    // resolved criteria of a Cfg case (c04Resolve)
 }
 
 var c04Mu sync.Mutex // sortCriteria and the scoring scheme are process-wide
@@ -118,6 +124,9 @@ func c04CompareGeneric(a, b c04Res, tac bool) bool {
 var schemeDefaultCrits = map[int][]int{0: {0, 2}, 1: {0, 5, 2}, 2: {0}}
 
 func c04Crits(cs c04Case) []int {
+	if cs.Cfg {
+		return cs.crits
+	}
 	if cs.Tiebreak == "" {
 		return schemeDefaultCrits[cs.Scheme]
 	}
@@ -507,6 +516,15 @@ func c04EvalScan(c *Ctx, cs c04Case) (ds []c04D, nontrivial bool) {
 }
 
 func c04Args(cs c04Case) []string {
+	if cs.Cfg {
+		// the option sequence as generated; file and environment parts are passed by c04EvalProc
+		a, _, _ := c04Render(cs.Opts)
+		args := append([]string{"-f", cs.Query}, a...)
+		if cs.Tail > 0 {
+			args = append(args, "--tail", strconv.Itoa(cs.Tail))
+		}
+		return args
+	}
 	args := []string{"-f", cs.Query, "--scheme=" + schemeNames[cs.Scheme]}
 	if cs.Tiebreak != "" {
 		args = append(args, "--tiebreak="+cs.Tiebreak)
@@ -529,6 +547,27 @@ func c04EvalProc(c *Ctx, cs c04Case) (ds []c04D, nontrivial bool) {
 	if c04ProcHung {
 		return nil, false
 	}
+	env := []string{}
+	if cs.Cfg {
+		ok := false
+		if cs, ok = c04Resolve(c, cs); !ok {
+			c.Rep.Count("proc.cfg.rejected_by_spec")
+			return nil, false
+		}
+		if schemeRank[cs.Scheme] < schemeRank[algoScheme] {
+			c.Rep.Count("proc.cfg.skipped_scheme_order") // algo.Init cannot go back (see algo.go)
+			return nil, false
+		}
+		if !cs.SortOn && !cs.Tac {
+			cs.Tail = 0 // streaming filter
+		}
+		_, e, f := c04Render(cs.Opts)
+		path, fok := c04EnvFile(c, f)
+		if !fok {
+			return nil, false
+		}
+		env = []string{"FZF_DEFAULT_OPTS=" + e, "FZF_DEFAULT_OPTS_FILE=" + path}
+	}
 	c04Mu.Lock()
 	_, crits, infos := c04Match(cs)
 	c04Mu.Unlock()
@@ -541,7 +580,18 @@ func c04EvalProc(c *Ctx, cs c04Case) (ds []c04D, nontrivial bool) {
 	if len(cs.Lines) > 0 {
 		stdin += "\n"
 	}
-	out, errb, code := RunFzf(c, c04Args(cs), []byte(stdin))
+	var out, errb string
+	var code int
+	if cs.Cfg && cs.Walker {
+		out, errb, code = RunFzfTTY(c, c04Args(cs), []byte(stdin), env...)
+		if code == -2 {
+			c.Rep.Count("proc.cfg.walker_skipped_no_pty")
+			return nil, false
+		}
+		c.Rep.Count("proc.cfg.walker(stdin_is_tty)")
+	} else {
+		out, errb, code = RunFzf(c, c04Args(cs), []byte(stdin), env...)
+	}
 	c.Rep.mu.Lock()
 	c.Rep.SpecChecks++
 	c.Rep.ImplTraces++
@@ -562,9 +612,17 @@ func c04EvalProc(c *Ctx, cs c04Case) (ds []c04D, nontrivial bool) {
 	}
 	for i := range got {
 		if got[i] != want[i] {
+			cfg := ""
+			if cs.Cfg {
+				if cs.Walker {
+					cfg = " stdin is a terminal, lines from $FZF_DEFAULT_COMMAND;"
+				}
+				cfg = fmt.Sprintf(" [%s fzf %s %s; configured: scheme=%s criteria=%v sort=%v tac=%v]", cfg, strings.Join(c04Args(cs), " "), strings.Join(env, " "),
+					schemeNames[cs.Scheme], crits, cs.SortOn, cs.Tac)
+			}
 			return []c04D{{Kind: "spec", Name: "ranked", Input: cs,
 				Impl:   fmt.Sprintf("output line %d is %q", i, got[i]),
-				Expect: fmt.Sprintf("%q (item %d)", want[i], order[i])}}, false
+				Expect: fmt.Sprintf("%q (item %d)", want[i], order[i]) + cfg}}, false
 		}
 	}
 	return nil, len(want) >= 2
@@ -588,6 +646,8 @@ func c04Eval(c *Ctx, cs c04Case) ([]c04D, bool) {
 		return c04EvalScan(c, cs)
 	case "proc":
 		return c04EvalProc(c, cs)
+	case "opts":
+		return c04EvalOpts(c, cs)
 	}
 	return nil, false
 }
@@ -647,6 +707,23 @@ func c04Shrink(c *Ctx, cs c04Case, ds []c04D) (c04Case, []c04D) {
 	return cs, ds
 }
 
+// shrink the option sequence of a configuration case: drop options while a spec disagreement persists
+func c04ShrinkOpts(c *Ctx, cs c04Case, ds []c04D) (c04Case, []c04D) {
+	if !cs.Cfg || !hasSpec(ds) || c04ProcHung {
+		return cs, ds
+	}
+	for i, budget := 0, 12; i < len(cs.Opts) && budget > 0; budget-- {
+		t := cs
+		t.Opts = append(append([]c04Opt{}, cs.Opts[:i]...), cs.Opts[i+1:]...)
+		if d, _ := c04Eval(c, t); hasSpec(d) {
+			cs, ds = t, d
+		} else {
+			i++
+		}
+	}
+	return cs, ds
+}
+
 func c04Key(cs c04Case) string {
 	b, _ := json.Marshal(cs)
 	if len(b) > 4096 {
@@ -667,9 +744,12 @@ func c04Check(c *Ctx, cs c04Case) {
 	c.Rep.Count("kind=" + cs.Kind)
 	if hasSpec(ds) {
 		c04SpecSeen++
-		if c04Shrunk < 3 && len(cs.Lines) <= 5000 {
+		if cs.Kind == "opts" {
+			cs, ds = c04ShrinkOpts(c, cs, ds) // in process: cheap
+		} else if c04Shrunk < 3 && len(cs.Lines) <= 5000 {
 			c04Shrunk++
 			cs, ds = c04Shrink(c, cs, ds)
+			cs, ds = c04ShrinkOpts(c, cs, ds)
 		}
 	}
 	for _, d := range ds {
@@ -694,6 +774,31 @@ func c04Check(c *Ctx, cs c04Case) {
 	case "build", "merger":
 		if len(c.Rep.Samples) < 3 {
 			c.Rep.Sample(cs)
+		}
+	}
+	if cs.Cfg {
+		c.Rep.Count(fmt.Sprintf("%s.cfg.options=%d", cs.Kind, min(len(cs.Opts), 4)))
+		hasScheme, lastTie, where := false, "", 0
+		for _, o := range c04ReadOrder(cs.Opts) {
+			switch o.K {
+			case "scheme":
+				hasScheme, lastTie = true, ""
+			case "tiebreak":
+				lastTie = strings.ToLower(o.V)
+			}
+			where |= 1 << o.Where
+		}
+		if !hasScheme {
+			c.Rep.Count(cs.Kind + ".cfg.no_scheme_option")
+		}
+		if lastTie == "index" {
+			c.Rep.Count(cs.Kind + ".cfg.tiebreak=index_last")
+			if !hasScheme {
+				c.Rep.Count(cs.Kind + ".cfg.tiebreak=index_last,no_scheme_option")
+			}
+		}
+		if where&6 != 0 {
+			c.Rep.Count(cs.Kind + ".cfg.default_opts_env_or_file")
 		}
 	}
 }
@@ -1041,6 +1146,7 @@ func c04Load(path string) (c04Case, bool) {
 func runC04(c *Ctx) {
 	c.Rep.Rule = "kinds: build (random text/offsets/score/criteria: buildResult points vs RankSpec.key and RankModel), compare (compareRanks x86 + generic copy vs model and rank_lt), " +
 		"merger/pass (NewMerger/PassMerger with random probe sequences vs MergerModel and the spec order), slices, sort, scan (Matcher.scan with 1..32 partitions, --tail snapshots) and proc (fzf -f stdout sequence) vs RankSpec.results; " +
+		"opts (fzf.ParseOptions on whole command lines vs CriteriaSpec.configured and CriteriaModel) and proc with cfg (the same command lines on the fzf process; scheme, criteria, sort, tac as the spec reads them); " +
 		"non-trivial = at least two matches / two non-empty lists / a valid offset with a tiebreak criterion; distinct by JSON of the case"
 	if c.Replay != "" {
 		if replaySearchSequence(c) {
@@ -1101,6 +1207,15 @@ func runC04(c *Ctx) {
 				}
 			}
 			c04Check(c, c04Case{Kind: "slices", N: 5, K: 0})
+			// configuration: the real ParseOptions on command lines built from --scheme/--tiebreak/--sort/--tac options
+			// (arguments, $FZF_DEFAULT_OPTS, $FZF_DEFAULT_OPTS_FILE; valid and malformed values)
+			for i, n := 0, c.N(3000, 60000); i < n; i++ {
+				c04Check(c, c04GenOptsCase(r, ties))
+			}
+			for _, tb := range ties { // every valid --tiebreak string alone, without --scheme, and after another one
+				c04Check(c, c04Case{Kind: "opts", Cfg: true, Opts: []c04Opt{{K: "tiebreak", V: tb}}})
+				c04Check(c, c04Case{Kind: "opts", Cfg: true, Opts: []c04Opt{{K: "tiebreak", V: Pick(r, ties), Where: r.Intn(3)}, {K: "tiebreak", V: tb}}})
+			}
 		}
 		// in-process Matcher.scan with any number of partitions
 		for i, n := 0, c.N(300, 8000); i < n; i++ {
@@ -1125,6 +1240,19 @@ func runC04(c *Ctx) {
 		}
 		for _, size := range []int{0, 1, 99, 100, 101, 3199, 3200, 3201} {
 			c04Check(c, c04GenScanLike(r, "proc", scheme, size, ties))
+		}
+		// the fzf process under a whole command line: no --scheme / several --tiebreak / --scheme after --tiebreak /
+		// --sort, --no-sort, --tac, --no-tac repeated / parts of it in $FZF_DEFAULT_OPTS(_FILE)
+		for i, n := 0, c.N(70, 2000); i < n; i++ {
+			size := Pick(r, []int{2, 3, 5, 10, 30, 60, 100, 101, 150, 250})
+			c04Check(c, c04GenCfgProc(r, scheme, size, ties))
+		}
+		if c.Thorough() && scheme == 0 {
+			for _, tb := range ties { // every --tiebreak string as the only option (no --scheme)
+				cs := c04GenCfgProc(r, scheme, 100+r.Intn(200), ties)
+				cs.Opts = []c04Opt{{K: "tiebreak", V: tb, Form: r.Intn(2), Where: Pick(r, []int{0, 0, 1, 2})}}
+				c04Check(c, cs)
+			}
 		}
 		big := c.N(1, 4)
 		for i := 0; i < big; i++ {
